@@ -103,7 +103,7 @@ def attach_generators():
             rec.ev()
             mode = "pretty" if P._pretty_numbers else "full"
             rec.arm(f"gen:{name}:{mode}")
-            w = {"generator": name, "args": list(a), "kwargs": dict(k), "seed": STATE["seed"], "pretty": bool(P._pretty_numbers)}
+            w = {"generator": name, "args": list(a), "kwargs": dict(k), "seed": STATE["seed"], "pretty": bool(P._pretty_numbers), "hostile": bool(STATE.get("hostile"))}
 
             def bad(key, what, got):
                 w2 = dict(w)
@@ -307,6 +307,115 @@ def calls(rng):
     yield "gen_move_around_blockers_two", (r.randint(1, 10),), dict(powers_probability=r.choice(probs))
 
 
+class hostile_draws:
+    """The promises hold 'for every random seed', i.e. for every outcome the random source may legally
+    produce.  Inside this block the module-level draws the generators use are answered, now and then, with a
+    legal but unlikely outcome: an end of the requested range, its neighbour, -1 / 0 / 1 / 2 when in range,
+    0.0 or the largest float below 1.  Everything else is the ordinary seeded source; the decisions come from
+    a private generator seeded with the same seed, so a witness replays exactly."""
+
+    NAMES = ("randint", "random", "uniform", "randrange")
+    COUNT = [0]
+
+    def __init__(self, seed, rate=0.12):
+        self.dec = random.Random(seed ^ 0x5A5A5A)
+        self.rate = rate
+
+    def __enter__(self):
+        self.real = {n: getattr(random, n) for n in self.NAMES}
+        dec, rate, real, count = self.dec, self.rate, self.real, self.COUNT
+
+        def randint(a, b):
+            v = real["randint"](a, b)
+            if dec.random() < rate:
+                cands = [x for x in (a, b, a + 1, b - 1, -1, 0, 1, 2) if a <= x <= b]
+                count[0] += 1
+                return dec.choice(cands)
+            return v
+
+        def rnd():
+            v = real["random"]()
+            if dec.random() < rate / 2:
+                count[0] += 1
+                return dec.choice((0.0, 1.0 - 2.0 ** -53, 2.0 ** -40, 0.5))
+            return v
+
+        def uniform(a, b):
+            v = real["uniform"](a, b)
+            if dec.random() < rate / 2:
+                count[0] += 1
+                return dec.choice((a, a + (b - a) * (1.0 - 2.0 ** -53), a + (b - a) * 2.0 ** -40))
+            return v
+
+        def randrange(start, stop=None, step=1):
+            v = real["randrange"](start, stop, step) if stop is not None else real["randrange"](start)
+            if step == 1 and dec.random() < rate / 2:
+                lo, hi = (0, start) if stop is None else (start, stop)
+                count[0] += 1
+                return dec.choice((lo, hi - 1))
+            return v
+
+        for n, f in (("randint", randint), ("random", rnd), ("uniform", uniform), ("randrange", randrange)):
+            setattr(random, n, f)
+        return self
+
+    def __exit__(self, *exc):
+        for n, f in self.real.items():
+            setattr(random, n, f)
+        return False
+
+
+class _plain_draws:
+    def __enter__(self):
+        return self
+
+    def __exit__(self, *exc):
+        return False
+
+
+def many_plain_calls(rec, cfg, rng):
+    """the generators re-sample on their own: a failure that needs an unlucky draw (one seed in tens of
+    thousands) only shows in bulk.  Here only 'returns (text, positive int) without raising' is decided
+    (the text of every n-th result is parsed by the ordinary monitor path)."""
+    import mathy_core.problems as P
+
+    plain = {g: getattr(getattr(P, g), "__vmon_original__", getattr(P, g)) for g in GENS}
+    cases = [("gen_simplify_multiple_terms", (10,), {}), ("gen_simplify_multiple_terms", (12,), {}), ("gen_simplify_multiple_terms", (6,), {"inner_terms_scaling": 0.5}),
+             ("gen_simplify_multiple_terms", (13,), {"common_variables": True}), ("gen_binomial_times_binomial", (), {}), ("gen_binomial_times_monomial", (), {}),
+             ("gen_commute_haystack", (), {}), ("gen_move_around_blockers_one", (3,), {}), ("gen_move_around_blockers_two", (3,), {})]
+    # "for every random seed": the seeds 0 .. N-1 in order, partitioned among the shards (VERIF_SEED shifts the window)
+    per_case = cfg.scale(130000, 2500000)
+    todo = []
+    for ci, (name, a, k) in enumerate(cases):
+        hi = per_case if name == "gen_simplify_multiple_terms" else per_case // 8
+        todo.append((ci, hi))
+    n = 0
+    base = cfg.seed * per_case if cfg.seed > 1 else 0
+    for i, (ci, sd) in enumerate(((ci, sd) for ci, hi in todo for sd in range(cfg.shard, hi, cfg.nshards))):
+        if i % 4096 == 0 and cfg.out_of_time():
+            break
+        n += 1
+        name, a, k = cases[ci]
+        seed = base + sd
+        P.use_pretty_numbers(sd % 2 == 0)
+        random.seed(seed)
+        try:
+            res = plain[name](*a, **k)
+            ok = isinstance(res, tuple) and len(res) == 2 and isinstance(res[0], str) and isinstance(res[1], int) and res[1] > 0
+            exc = None
+        except Exception as e:
+            ok, exc = False, e
+        rec.ev()
+        if not ok:
+            key = classify_raise(name, a, k, exc) if exc is not None else f"gen/{name}/result-type"
+            rec.violation("C17", key, "a problem generator raised" if exc is not None else "a problem generator did not return (text, complexity)",
+                          {"generator": name, "args": list(a), "kwargs": dict(k), "seed": seed, "pretty": sd % 2 == 0,
+                           "summary": f"{name}(*{list(a)}, **{k}) seed={seed} pretty={sd % 2 == 0}: " + (f"raised {type(exc).__name__}: {str(exc)[:80]}" if exc is not None else f"returned {res!r}"[:120])})
+    rec.arm("gen:plain-bulk-calls", n)
+    rec.arm("gen:unlikely-draws-injected", hostile_draws.COUNT[0])
+    P.use_pretty_numbers(True)
+
+
 def run(rec, cfg):
     rec.accept = {"gen", "vars", "split", "templates"}
     import mathy_core.problems as P
@@ -321,18 +430,21 @@ def run(rec, cfg):
                 rec.truncated = True
                 break
             for name, a, k in calls(rng):
-                for pretty in (True, False):
-                    seed = (cfg.seed * 1000003 + cfg.shard * 100003 + i * 31 + (0 if pretty else 7)) % (2 ** 31)
+                for pretty, hostile in ((True, False), (False, False), (True, True), (False, True)):
+                    seed = (cfg.seed * 1000003 + cfg.shard * 100003 + i * 31 + (0 if pretty else 7) + (0 if not hostile else 13)) % (2 ** 31)
                     random.seed(seed)
                     STATE["seed"] = seed
+                    STATE["hostile"] = hostile
                     P.use_pretty_numbers(pretty)
                     _GEN_DEPTH[0] += 1
                     try:
-                        out = getattr(P, name)(*a, **k)
+                        with (hostile_draws(seed) if hostile else _plain_draws()):
+                            out = getattr(P, name)(*a, **k)
                     except Exception as e:
                         out = e
                     finally:
                         _GEN_DEPTH[0] -= 1
+                        STATE["hostile"] = False
                         P.use_pretty_numbers(True)
                     if rng.random() < 0.002:
                         rec.sample({"generator": name, "kwargs": {kk: repr(v) for kk, v in k.items()}, "seed": seed, "pretty": pretty, "output": repr(out)[:140]})
@@ -398,6 +510,7 @@ def run(rec, cfg):
                 for _ in range(3):
                     P.rand_number()
             P.use_pretty_numbers(True)
+        many_plain_calls(rec, cfg, rng)
     finally:
         P.use_pretty_numbers(True)
         random.setstate(state)
@@ -412,10 +525,13 @@ def replay(rec, cfg, w):
         STATE["seed"] = w["seed"]
         P.use_pretty_numbers(bool(w.get("pretty", True)))
         _GEN_DEPTH[0] += 1
+        STATE["hostile"] = bool(w.get("hostile"))
         try:
-            getattr(P, w["generator"])(*w.get("args", []), **w.get("kwargs", {}))
+            with (hostile_draws(w["seed"]) if w.get("hostile") else _plain_draws()):
+                getattr(P, w["generator"])(*w.get("args", []), **w.get("kwargs", {}))
         except Exception:
             pass
         finally:
             _GEN_DEPTH[0] -= 1
+            STATE["hostile"] = False
             P.use_pretty_numbers(True)
